@@ -17,6 +17,7 @@ def run(rep):
     rep.guard(m4b, rep, w)
     rep.guard(m5, rep, w)
     rep.guard(m6, rep, w)
+    rep.guard(m7, rep, w)
     rep.guard(c08.x9, rep, w)     # the active module is re-read from the frame whenever the frame list changes (unwinding out of another module)
     rep.guard(c08.x7, rep, w)     # an ImportError that was delivered to a handler must not be followed by further pushes in the import handler
 
@@ -204,6 +205,57 @@ def m2(rep, w):
             'module\'s globals', si.loc())
 
 
+def _registry_branch(f):
+    """(switch block on the result of modules.get, blocks of the miss edge, blocks of the hit edge)"""
+    org = origins(f)
+    dom = f.dominators()
+    gets = []
+    for bi, t in f.calls():
+        n = strip_generics(callee_name(t) or '')
+        if n == 'std::collections::HashMap::get' and t['args']:
+            pl = op_place(t['args'][0])
+            if pl is not None and 'modules' in operand_fields(f, org, t['args'][0]):
+                gets.append(bi)
+    if len(gets) != 1:
+        raise Broken('C14', 'anchor', 'start_import_impl: modules.get not found (%d)' % len(gets))
+    sw = None
+    b = f.blocks[gets[0]]['t'].get('to')
+    for _ in range(8):
+        t = f.blocks[b]['t']
+        if t['t'] == 'switch':
+            sw = b
+            break
+        b = t.get('to')
+        if b is None:
+            break
+    if sw is None:
+        raise Broken('C14', 'anchor', 'start_import_impl: branch on the registry look-up not found')
+    t = f.blocks[sw]['t']
+    none_t = [cb for v, cb in t['cases'] if v == 0]
+    miss = none_t[0] if none_t else t['else']
+    miss_region = {x for x in dom if miss in dom[x]}
+    hit_region = {x for x in f.normal_blocks() if x not in miss_region and sw in dom.get(x, ())}
+    return sw, miss_region, hit_region
+
+
+def _dominates_to(f, dom, b, target):
+    """every path from b to a return passes... no: b lies on the way to `target` (target is reachable from b)"""
+    if target is None:
+        return False
+    seen = set()
+    stack = [b]
+    succ = f.succs()
+    while stack:
+        x = stack.pop()
+        if x == target:
+            return True
+        if x in seen:
+            continue
+        seen.add(x)
+        stack.extend(succ[x])
+    return False
+
+
 def m3(rep, w):
     c = w.yarel
     r = rep.rule('M3', 'every failure of an import is raised through try_handle_error and the errors built here are ImportErrors', floor=3)
@@ -217,8 +269,23 @@ def m3(rep, w):
             rr = s.get('r', {})
             if rr.get('rv') == 'agg' and rr.get('adt') == 'yarel::error::ErrorKind':
                 kinds.append(rr['v'])
-    r.check(bool(kinds) and set(kinds) == {'ImportError'}, 'errors built in start_import_impl are ImportError (%d sites)' % len(kinds),
-            'start_import_impl builds errors of kind %s' % sorted(set(kinds)), f.loc())
+    # which of them are *import failures*: those raised for a module that is still loading (hit edge of the registry look-up)
+    # and those raised because the module does not compile. An error raised for another reason before anything was loaded
+    # (no call frame left for the body) keeps its own class, as it does for an ordinary call.
+    dom = f.dominators()
+    _, _, hit_region = _registry_branch(f)
+    comp = [bi for bi, tt in f.calls() if callee_name(tt) == 'yarel::compiler::compile']
+    loader = [bi for bi, tt in f.calls() if 'ind' in tt['f']]
+    first = (loader or comp or [None])[0]
+    fail_kinds = []
+    for bi, b in enumerate(f.blocks):
+        for s in b['s']:
+            rr = s.get('r', {})
+            if rr.get('rv') == 'agg' and rr.get('adt') == 'yarel::error::ErrorKind':
+                if bi in hit_region or (first is not None and first in dom.get(bi, ())):
+                    fail_kinds.append(rr['v'])
+    r.check(len(fail_kinds) >= 2 and set(fail_kinds) == {'ImportError'}, 'errors built for a cyclic import or a module that does not compile are ImportError (%d sites)' % len(fail_kinds),
+            'start_import_impl reports an import failure as %s' % sorted(set(fail_kinds)), f.loc())
     the = [bi for bi, t in f.calls() if callee_name(t) == VM + 'try_handle_error']
     r.check(len(the) >= 3, 'three failure edges (cycle, loader, compile) go through try_handle_error', 'only %d try_handle_error sites' % len(the), f.loc())
     d = w.require_fn('yarel::vm::default_read_module_source', 'C14')
@@ -322,3 +389,64 @@ def m6(rep, w):
             continue
         r.check(bool(a) and bool(exported[nm] & set(a)), 'built-in %s is exported as the class the store holds under that name' % nm,
                 '`%s` is exported from %s, not from the class-store entry filled from main\'s `%s` (%s)' % (nm, sorted(x.rsplit('::', 1)[-1] for x in exported[nm]), nm, [x.rsplit('::', 1)[-1] for x in a]), ib.loc())
+
+
+def _frames_full_tests(f):
+    """[(block, constant, target when not full)] for every `frames.len() == K` in f"""
+    out = []
+    lens = {}
+    for bi, t in f.calls():
+        if strip_generics(callee_name(t) or '') == 'std::vec::Vec::len' and not t['dst'].get('p'):
+            lens[t['dst']['l']] = bi
+    org = origins(f)
+    for bi in f.normal_blocks():
+        for s_ in f.blocks[bi]['s']:
+            rr = s_.get('r', {})
+            if rr.get('rv') != 'bin' or rr.get('op') != 'Eq':
+                continue
+            a, b = rr['a'], rr['b']
+            ka, kb = op_const(a), op_const(b)
+            pl = op_place(b if ka is not None else a)
+            k = ka if ka is not None else kb
+            if k is None or pl is None or pl['l'] not in lens or 'v' not in k:
+                continue
+            lb = lens[pl['l']]
+            if 'frames' not in operand_fields(f, org, f.blocks[lb]['t']['args'][0]):
+                continue
+            tt = f.blocks[bi]['t']
+            dl = s_['d']['l']
+            if tt['t'] == 'switch' and (op_place(tt['d']) or {}).get('l') == dl:
+                not_full = [cb for v, cb in tt['cases'] if v == 0]
+                out.append((bi, k['v'], not_full[0] if not_full else None))
+    return out
+
+
+def m7(rep, w):
+    """the body of a module runs in a call frame of its own. The call that starts it reports a full frame list like any other call,
+    by delivering an error to a handler -- after which start_import_impl cannot tell that the body never started. So the import
+    must refuse *before* it registers the module, under the same condition call_closure refuses under. (Until fix 1342e1d an
+    import at the call-depth limit left the module registered as still loading, and installed the built-ins over the globals of the
+    module the handler was in.)"""
+    r = rep.rule('M7', 'an import at the call-depth limit fails before the module is registered (same limit as call_closure)', floor=2)
+    cc = w.require_fn(VM + 'call_closure', 'C14')
+    f = w.require_fn(VM + 'start_import_impl', 'C14')
+    lim = {k for (_, k, _) in _frames_full_tests(cc)}
+    if not lim:
+        raise Broken('C14', 'anchor', 'call_closure: the frames-full test was not recognised')
+    mine = [(bi, k, nf) for (bi, k, nf) in _frames_full_tests(f) if k in lim]
+    dom = f.dominators()
+    reg = [bi for bi, tt in f.calls() if callee_name(tt) == VM + 'module']
+    body = [bi for bi, tt in f.calls() if callee_name(tt) == VM + 'call_value']
+    ok = bool(mine) and bool(reg) and all(any(nf is not None and nf in dom.get(rb, ()) for (_, _, nf) in mine) for rb in reg)
+    r.check(ok, 'start_import_impl registers the module only behind the "frame list not full" edge of the test call_closure makes (limit %s)' % sorted(lim),
+            'start_import_impl registers a module (and goes on to start its body) without first making sure a call frame is left: at the call-depth limit the '
+            '"Stack overflow" error is delivered to a handler, the module stays registered as still loading (every later import reports a circular dependency) '
+            'and the code after the call installs the built-ins into the handler\'s module', f.loc())
+    # the refusing edge raises through try_handle_error
+    the = {bi for bi, tt in f.calls() if callee_name(tt) == VM + 'try_handle_error'}
+    full_ok = False
+    for (bi, k, nf) in mine:
+        tt = f.blocks[bi]['t']
+        full = tt['else']
+        full_ok = full_ok or any(full in dom.get(x, ()) for x in the)
+    r.check(full_ok, 'the refusal is a catchable error', 'the frames-full edge of start_import_impl does not raise through try_handle_error', f.loc())
